@@ -1,6 +1,6 @@
 //! Kani harnesses over the real `ast-grep-core` (path dependency on /repo) with the
 //! tree-sitter facade replaced by `mock-ts` (stub ST1).  See /verif/DESIGN.md.
-#![allow(dead_code, unused_imports, clippy::all)]
+#![allow(dead_code, unused_imports, unconditional_panic, clippy::all)]
 
 pub mod common;
 
